@@ -366,15 +366,18 @@ def driver_part(chk, tier):
                 exp = 1 + ((t['row'] + 1) % 4) if t['slack'] is None else rev_basis(vst[t['slack']])
                 if sc[0]['values'].get(i, 0) != exp: probs.append('.sol constraint .sstatus is not the (slack-mapped) status of its row'); break
         return job, probs, run
-    n = 0; judged = 0
+    n = 0; judged = 0; with_sstatus = 0; with_duals = 0
     with ThreadPoolExecutor(max_workers=vcheck.NCPU) as ex:
         for job, probs, run in ex.map(one, jobs):
             n += 1
             real = [p for p in probs if not p.startswith('__')]
             if '__unmatched__' not in probs: judged += 1
+            if '__no_sstatus__' not in probs and run.get('sol') and 'sstatus' in run['sol']: with_sstatus += 1
+            if run.get('sol') and '\n300' in run['sol']: with_duals += 1
             for pr in real:
                 chk.violation('C04 driver: %s cfg=%s' % (pr, job[4]), {'model': job[2].describe(), 'sol': (run['sol'] or '')[-600:]}, None)
-    chk.set('driver_runs', n); chk.set('driver_runs_judged', judged)
+    chk.set('driver_runs', n); chk.set('driver_runs_judged', judged); chk.set('driver_runs_with_sstatus', with_sstatus); chk.set('driver_runs_with_duals', with_duals)
+    if with_sstatus < n / 3 or with_duals < n / 3: chk.broken.append('driver part vacuous: sstatus in %d, duals in %d of %d runs' % (with_sstatus, with_duals, n))
     shutil.rmtree(work, ignore_errors=True)
     if judged < n / 2: chk.broken.append('driver part: only %d of %d runs judged' % (judged, n))
 
